@@ -136,6 +136,49 @@ def _variant(rng):
     }
 
 
+def _sibling_cases(rng, n):
+    import copy
+
+    from vlib import pipeline
+    from vlib.gen import configs
+
+    for _ in range(n):
+        base = configs.random_recipe(rng, {"maxw": 8, "maxh": 8, "max_slices": (2, 2), "max_dwt": 2, "max_depth_bits": 12})
+        base["w"], base["h"] = 8, 8
+        base.pop("cw", None), base.pop("ch", None), base.pop("lo", None), base.pop("to", None)
+        base["pics"]["n"] = 2 if base["pcm"] else 1
+        base["pics"]["class"] = "noise"
+        if not base["lossless"]:
+            base["pb"] = base["sx"] * base["sy"] * 40
+        rngs = base.get("range") or [0, 255, 128, 255]
+        sib = []
+        for attr in rng.sample(["chroma_depth", "luma_depth", "cdf", "pcm", "size"], 3):
+            r = copy.deepcopy(base)
+            if attr == "chroma_depth":
+                r["range"] = [rngs[0], rngs[1], 512, 1023] if rngs[3] != 1023 else [rngs[0], rngs[1], 128, 255]
+            elif attr == "luma_depth":
+                r["range"] = [64, 1023, rngs[2], rngs[3]] if rngs[1] != 1023 else [16, 255, rngs[2], rngs[3]]
+            elif attr == "cdf":
+                r["cdf"] = rng.choice([c for c in (0, 1, 2) if c != base["cdf"]])
+            elif attr == "pcm":
+                r["pcm"] = 1 - base["pcm"]
+                r["pics"]["n"] = 2 if r["pcm"] else 1
+            else:
+                r["w"], r["h"] = 16, 8
+            sib.append((attr, r))
+        datas = []
+        for attr, r in [("base", base)] + sib:
+            o = pipeline.run(r)
+            if o.stage == "done" and o.verdict.kind == "ok":
+                datas.append((attr, o.data))
+        for i in range(len(datas)):
+            for j in range(len(datas)):
+                if i != j:
+                    yield {"data": datas[i][1] + datas[j][1], "op": "siblings:%s+%s" % (datas[i][0], datas[j][0]), "seed": "sibling"}
+        for attr, d in datas:
+            yield {"data": d, "op": "sibling-alone:" + attr, "seed": "sibling"}
+
+
 def cases(spec, ctx):
     rng = ctx.rng
     corpus = cliwork.load_corpus(ctx, spec.get("size", "quick"))
@@ -151,6 +194,12 @@ def cases(spec, ctx):
         yield {"data": data, "op": "none", "seed": label, "v": v}
     for d, op in ((b"", "edge:empty"), (b"BBCD", "edge:prefix-only"), (b"BBCD\x10" + bytes(8), "edge:eos-only")):
         yield {"data": d, "op": op, "seed": "-", "v": _variant(rng)}
+    # siblings: a conformant sequence followed by a re-encoding with exactly one format attribute changed (chroma or
+    # luma depth, chroma sampling, coding mode, size) - in one stream and as consecutive files of the same process;
+    # anything the command caches per format under too coarse a key shows here
+    for case in _sibling_cases(rng, 6 if spec.get("size", "quick") == "quick" else 40):
+        case["v"] = _variant(rng)
+        yield case
     for i in range(spec["n"]):
         if rng.random() < 0.03:
             case = cliwork.zero_run(corpus, rng)
